@@ -66,8 +66,8 @@ class URI(object):
             self._parseLocation(location, None)
         elif self.protocol == "PYROMETA":
             self.object = set(m.strip() for m in self.object.split(","))
-            if any(m.startswith("@") for m in self.object):
-                raise errors.PyroError("invalid uri (metadata tag cannot start with '@')")
+            if any("@" in m for m in self.object):
+                raise errors.PyroError("invalid uri (metadata tag cannot contain '@')")
             self._parseLocation(location, config.NS_PORT)
         else:
             raise errors.PyroError("invalid uri (protocol)")
